@@ -38,6 +38,20 @@ package l1infotreesync
 //@   modifies l1LastBlockScanFaults
 //@   ensures[the-highest-block-row-or-zero-when-empty] result1 == nil ==> result0 == l1LastProcessed
 //@   ensures[a-storage-failure-is-reported] result1 == nil ==> l1LastBlockScanFaults == old(l1LastBlockScanFaults)
+// what the driver resumes from and the consumers wait for (C05 restart point, C07 "no later block recorded while an
+// earlier one is missing"): answered from the store on every call - never from memory that a rolled-back block could
+// have left behind
+//@ func (p *processor) GetLastProcessedBlock (p, ctx)
+//@   props C05 C07
+//@   requires p != nil && p.db != nil
+//@   modifies l1LastBlockScanFaults
+//@   ensures[answered-from-the-store] result1 == nil ==> result0 == l1LastProcessed
+//@   assert call:getLastProcessedBlockWithTx arg0 == p && arg1 == p.db
+//@ func (s *L1InfoTreeSync) GetLastProcessedBlock (s, ctx)
+//@   props C05 C07
+//@   requires s != nil && s.processor != nil && s.processor.db != nil
+//@   modifies l1LastBlockScanFaults
+//@   ensures[answered-from-the-store] (!old(s.processor.halted) && result1 == nil) ==> result0 == l1LastProcessed
 
 //@ extern github.com/russross/meddler.QueryRow@l1infotreesync.(*processor).GetLatestInfoUntilBlock (db, dst, query, args)
 //@   modifies *cast(dst, *L1InfoTreeLeaf)
